@@ -436,8 +436,15 @@ func orderedBasic(t types.Type) bool {
 
 func rewriteMapRange(p *packages.Package, r *ast.RangeStmt, mt *types.Map, src []byte) ([]edit, bool) {
 	off := func(pos token.Pos) int { return p.Fset.Position(pos).Offset }
-	if !orderedBasic(mt.Key()) || !isSimple(r.X) {
+	if !isSimple(r.X) {
 		return nil, false
+	}
+	helper := "MapKeys"
+	if !orderedBasic(mt.Key()) {
+		if !types.Comparable(mt.Key()) {
+			return nil, false
+		}
+		helper = "MapKeysAny"
 	}
 	if r.Key != nil && r.Tok != token.DEFINE {
 		return nil, false
@@ -461,7 +468,7 @@ func rewriteMapRange(p *packages.Package, r *ast.RangeStmt, mt *types.Map, src [
 		}
 		val = id.Name
 	}
-	hdr := fmt.Sprintf("for _, %s := range %s.MapKeys(%s) {", key, rtName, xsrc)
+	hdr := fmt.Sprintf("for _, %s := range %s.%s(%s) {", key, rtName, helper, xsrc)
 	pre := fmt.Sprintf(" %s, ok__seam := %s[%s]; if !ok__seam { continue }; _ = %s;", val, xsrc, key, key)
 	return []edit{
 		{off: off(r.For), end: off(r.Body.Lbrace) + 1, text: hdr + pre + " "},
